@@ -1,9 +1,4 @@
-instance decForallUInt8 (P : UInt8 → Prop) [DecidablePred P] : Decidable (∀ b, P b) :=
-  decidable_of_iff (∀ i : Fin 256, P (UInt8.ofNat i.val))
-    ⟨fun h b => by
-        have := h ⟨b.toNat, b.toNat_lt⟩
-        simpa using this,
-     fun h i => h _⟩
+import Proto.Core.Utf8
 
 inductive Opcode | query | iquery | status | notify | update | dso
   deriving DecidableEq, Repr
